@@ -493,6 +493,34 @@ class Gen:
         E.append(("abstract:same-object-twice", '[abi (int/s64 "77")]'))
         E.append(("abstract:in-proto", '(struct/with-proto {(int/s64 1) ab5} (int/u64 1) :v)'))
         E.append(("abstract:in-proto", '(struct/with-proto (struct (int/s64 "1") ab5) (int/u64 "1") :v)'))
+        # values that SHARE a tuple / struct object (janet_equals' pointer short-cuts `t1 == t2` / `s1 == s2` fire in the middle of a
+        # traversal): the shared object first, last, as key, as value, as prototype; beside a copy with equal content
+        self.prelude += ["(def sh0 [1 :a])", "(def sh1 {:a 1 :b [2]})", "(def sh2 (tuple 1 :a))", "(def sh3 (struct :b [2] :a 1))"]
+        for a_, b_ in (("sh0", "sh2"), ("sh1", "sh3")):
+            for other in (a_, b_):
+                E.append(("shared:first", "[%s 1]" % other))
+                E.append(("shared:first", "[%s 2]" % other))
+                E.append(("shared:last", "[0 %s]" % other))
+                E.append(("shared:twice", "[%s %s]" % (a_, other)))
+                E.append(("shared:as-value", "{:k %s :z 1}" % other))
+                E.append(("shared:as-value", "{:k %s :z 2}" % other))
+                E.append(("shared:as-key", "{%s 1 :z 1}" % other))
+                E.append(("shared:as-key", "{%s 1 :z 2}" % other))
+        # … followed by a difference the hash short-cut cannot see (elements with EQUAL hashes: djb2 collisions "aa" / "b@", numbers with
+        # the same hi^lo): the containers have equal stored hashes and lengths, so janet_equals really walks them, and meets the
+        # shared object first
+        same_hash = [('"aa"', '"b@"'), (":aa", ":b@"), ("1", "(nb 0x3FF00001 0x1)")]
+        for sh in ("sh0", "sh1"):
+            for x_, y_ in same_hash:
+                for tail in (x_, y_):
+                    E.append(("shared:then-equal-hash-difference", "[%s %s]" % (sh, tail)))
+                    E.append(("shared:then-equal-hash-difference", "[%s %s %s]" % (sh, sh, tail)))
+                    E.append(("shared:then-equal-hash-difference", "{:k %s :z %s}" % (sh, tail)))
+                    E.append(("shared:then-equal-hash-difference", "{:z %s :k %s}" % (sh, tail)))
+                    E.append(("shared:then-equal-hash-difference", "(struct/with-proto %s :q %s)" % ("sh1", tail)))
+        E.append(("shared:as-proto", "(struct/with-proto sh1 :q 1)"))
+        E.append(("shared:as-proto", "(struct/with-proto sh1 :q 2)"))
+        E.append(("shared:as-proto", "(struct/with-proto sh3 :q 1)"))
         for a in syms + kws:
             srcs = self.atom_srcs(a)
             lab, src = srcs[r.below(len(srcs))]
